@@ -3,7 +3,8 @@ import MesaModel.Model.Layers
 Line-protocol driver for the Layers model (C11, C18-layers).  One output line per input line.
 Producer: harness/layers_common.py.
 
-  scenario new|single|multi DIMS CAP          reset            (DIMS = 2x3, CAP = 0 for unbounded)
+  scenario new|single|multi DIMS CAP GRIDCLASS TORUS    reset   (DIMS = 2x3, CAP = 0 for unbounded,
+                                              GRIDCLASS = moore|vonneumann|hex|-, TORUS = 0|1: harness only)
   create NAME DTYPE DEFAULT                   create_property_layer / PropertyLayer + add_property_layer
   new NAME DIMS DTYPE DEFAULT                 a free-standing PropertyLayer
   attach LID | detach NAME                    add_property_layer(layer) / remove_property_layer(name)
@@ -189,7 +190,9 @@ def parseImpl : String → Option Impl
 
 def stepLine (st : State) (ws : List String) : State × String :=
   match ws with
-  | ["scenario", k, dims, cap] =>
+  | ["scenario", k, dims, cap, gridclass, torus] =>
+      -- grid class and torus flag only select which mesa class the harness instantiates
+      if !(["moore", "vonneumann", "hex", "-"].contains gridclass && ["0", "1"].contains torus) then (st, "bad-op") else
       match parseImpl k, parseDims dims, cap.toNat? with
       | some k, some dims, some cap => (init k dims cap, "ok")
       | _, _, _ => (st, "bad-op")
